@@ -153,6 +153,7 @@ type mqWorld struct {
 	inSend                  int
 	binfo                   map[*messagequeue.Builder]*mqBInfo
 	reservedNotBuilt        uint64 // bytes reserved for a build that then added nothing
+	reservedNotBuiltSizes   []uint64
 	release                 chan struct{}
 	sends                   int
 	dials                   int
@@ -339,6 +340,7 @@ type mqObs struct {
 	panicked         string
 	attachments      int
 	reservedNotBuilt uint64
+	notBuiltSizes    []uint64
 	stranded         int // builders with content left in a queue whose goroutine has exited
 	unresCause       string
 }
@@ -425,6 +427,7 @@ func mqRun(cfg vsched.Config, sc mqScenario) (*mqObs, *vsched.Sched) {
 			obs.statsIdle = w.alloc.Stats()
 			obs.stranded = strandedNow()
 			obs.reservedNotBuilt = w.reservedNotBuilt
+			obs.notBuiltSizes = append([]uint64(nil), w.reservedNotBuiltSizes...)
 			obs.allocFail = w.allocFail
 			obs.queues = len(w.queues)
 			obs.faults = w.faults
@@ -536,6 +539,7 @@ func mqRun(cfg vsched.Config, sc mqScenario) (*mqObs, *vsched.Sched) {
 		obs.stranded = strandedNow()
 		obs.strandedLive = strandedLiveNow()
 		obs.reservedNotBuilt = w.reservedNotBuilt
+		obs.notBuiltSizes = append([]uint64(nil), w.reservedNotBuiltSizes...)
 		atDeadlock = nil
 		// balance the scenario's connects, then a final connect/disconnect pair:
 		// after it no queue may be alive
@@ -662,6 +666,7 @@ func (w *mqQueueWrap) AllocateAndBuildMessage(size uint64, fn func(*messagequeue
 		fn(b)
 		if size > 0 && core.DeepKey(b.Builder, core.DeepOpts{BytesAsLen: true, MaxDepth: 6}) == before {
 			w.q.w.reservedNotBuilt += size
+			w.q.w.reservedNotBuiltSizes = append(w.q.w.reservedNotBuiltSizes, size)
 		}
 	})
 }
@@ -782,12 +787,14 @@ func mqJudge(id string, sc mqScenario, o *mqObs) *core.Violation {
 			sig := "phantom-memory-at-idle"
 			if o.stranded > 0 {
 				sig = "phantom-memory-at-idle/data-stranded-in-shut-down-queue"
-			} else if o.reservedNotBuilt > 0 && o.reservedNotBuilt == o.allocIdle {
+			} else if o.reservedNotBuilt > 0 && subsetSum(o.notBuiltSizes, o.allocIdle) {
+				// what is still held is exactly some of the reservations that were never built (a queue that exits
+				// releases the peer's whole account, which may have returned the others)
 				sig = "phantom-memory-at-idle/reservation-never-built"
 			} else if ext {
 				sig = "phantom-memory-at-idle/extension-bytes"
 			}
-			return mk(sig, fmt.Sprintf("queue idle but AllocatedForPeer=%d, total=%d, pending=%d", o.allocIdle, o.statsIdle.TotalAllocatedAllPeers, o.statsIdle.TotalPendingAllocations))
+			return mk(sig, fmt.Sprintf("queue idle but AllocatedForPeer=%d, total=%d, pending=%d (stranded builders=%d, reserved-not-built=%d)", o.allocIdle, o.statsIdle.TotalAllocatedAllPeers, o.statsIdle.TotalPendingAllocations, o.stranded, o.reservedNotBuilt))
 		}
 	}
 	return nil
@@ -955,4 +962,17 @@ func init() {
 	mk("C17", "stateless DFS over all schedules within the deviation bound (every non-default scheduling decision or injected connect/send failure costs 1) of driver threads doing Connected/Disconnected and numbered sends against the real PeerMessageManager+MessageQueue; a class is a distinct (queues created, alive at end, faults, wire message sequence) observation", mqScenariosC17, 2, 3, core.Deviation)
 	mk("C16", "stateless DFS over all schedules and fault placements within the deviation bound of response transactions and request sends through the real ResponseAssembler/PeerMessageManager/MessageQueue/notifications publisher; oracle: every (builder, subscriber) attachment sees exactly one Sent or Error; a class is a distinct wire/fault/unresolved observation", mqScenariosC16, 2, 3, core.Deviation)
 	mk("C15", "stateless DFS over all schedules and fault placements within the deviation bound of response transactions (small blocks, 300KiB blocks forcing several builders, extension data, finish) through the real assembler/queue/allocator; oracle: at the idle point (connection up, nothing queued) the peer's accounted memory is zero and no reservation failed before data was queued; a class is a distinct wire/fault/accounting observation", mqScenariosC15, 2, 3, core.Deviation)
+}
+
+// subsetSum: is want the sum of some of the sizes?
+func subsetSum(sizes []uint64, want uint64) bool {
+	if want == 0 {
+		return true
+	}
+	for i, x := range sizes {
+		if x <= want && subsetSum(sizes[i+1:], want-x) {
+			return true
+		}
+	}
+	return false
 }
